@@ -252,6 +252,24 @@ let vyu_inst (c : case) : VyukovDefs.state inst =
     pctag = simple_pctag (fun st -> st.th);
     nm }
 
+(* ---------------------------------------------------------------- michael_scott_queue (GC reclaimer) *)
+let msq_inst (c : case) : MsqDefs.state inst =
+  let open MsqDefs in
+  let nm = {
+    named = (function 0 -> "head" | 1 -> "tail" | _ -> "?");
+    opname = (function 0 -> "push" | 1 -> "pop" | _ -> "?");
+    resname = (fun r -> match List.map int_of_n r with [1] -> "ok" | [1; _] -> string_of_n (List.nth r 1) | [0] -> "empty" | _ -> "?");
+    note = (fun code args -> match code, args with 120, [h] -> Some ("RETIRE h" ^ string_of_n h ^ "+0") | _ -> None);
+  } in
+  { init = MsqDefs.init;
+    idle = (fun st t -> match st.th (nat_of_int t) with Idle -> true | _ -> false);
+    start = (fun st t (name, args) ->
+      let o = match name, args with "push", [v] -> OPush (n_of_string v) | _ -> OPop in
+      match MsqDefs.step st (Start (nat_of_int t, o)) with Some (s', _) -> Some s' | None -> None);
+    step = (fun st t _ -> MsqDefs.step st (Step (nat_of_int t)));
+    pctag = simple_pctag (fun st -> st.th);
+    nm }
+
 let () =
   let model = Sys.argv.(1) and cmd = Sys.argv.(2) and path = Sys.argv.(3) in
   let c = parse_case path in
@@ -278,4 +296,5 @@ let () =
   | "seqlock" -> go (seqlock_inst c)
   | "lr" -> go (lr_inst c)
   | "vyu" -> go (vyu_inst c)
+  | "msq" -> go (msq_inst c)
   | _ -> prerr_endline ("unknown model " ^ model); exit 2
